@@ -50,7 +50,7 @@ func (m *Model) findExpectLikes(parFns []*ssa.Function) map[*ssa.Function]*expec
 				found := false
 				for _, f := range expandFacts(factsAt(b)) {
 					call, isCall := f.Cond.(*ssa.Call)
-					if !isCall || !f.Holds || call.Call.StaticCallee() == nil || call.Call.StaticCallee().Name() != "peekTokenIs" {
+					if !isCall || !f.Holds || call.Call.StaticCallee() == nil || canonFnName(call.Call.StaticCallee()) != "peekTokenIs" {
 						continue
 					}
 					found = true
@@ -135,7 +135,7 @@ type delimCtx struct {
 func (dc *delimCtx) closerInfo(t int64) *consumerInfo {
 	callPoint := func(c ssa.CallInstruction) bool {
 		sc := c.Common().StaticCallee()
-		if sc == nil || sc.Name() != "parseExpressionList" || len(c.Common().Args) < 2 {
+		if sc == nil || canonFnName(sc) != "parseExpressionList" || len(c.Common().Args) < 2 {
 			return false
 		}
 		k, ok := c.Common().Args[1].(*ssa.Const)
@@ -149,11 +149,11 @@ func (dc *delimCtx) closerInfo(t int64) *consumerInfo {
 		if el := dc.els[sc]; el != nil {
 			return el.accepts(c, t)
 		}
-		if sc.Name() == "curTokenIs" && len(c.Call.Args) == 2 {
+		if canonFnName(sc) == "curTokenIs" && len(c.Call.Args) == 2 {
 			k, ok := c.Call.Args[1].(*ssa.Const)
 			return ok && k.Value != nil && k.Int64() == t
 		}
-		if sc.Name() == "peekTokenIs" {
+		if canonFnName(sc) == "peekTokenIs" {
 			elems := variadicElems(c.Call.Args[len(c.Call.Args)-1])
 			if len(elems) != 1 {
 				return false
@@ -212,7 +212,7 @@ func (dc *delimCtx) parens(lp, rp int64) {
 					continue
 				}
 				// start: the success edge of this call
-				key := fmt.Sprintf("%s|\"(\" opened by %s is closed", fnKey(fn), call.Call.StaticCallee().Name())
+				key := fmt.Sprintf("%s|\"(\" opened by %s is closed", fnKey(fn), canonFnName(call.Call.StaticCallee()))
 				starts := successTargets(call)
 				if len(starts) == 0 {
 					// result not branched on: start right after the call
@@ -574,7 +574,7 @@ func buildsIllegal(b *ssa.BasicBlock, newTok *ssa.Function, illegal int64) bool 
 						return true
 					}
 				}
-				if sc.Name() == "illegalToken" {
+				if canonFnName(sc) == "illegalToken" {
 					return true
 				}
 			}
